@@ -130,3 +130,7 @@ package types
 //@   loop 1 invariant len(hashes) == it1 && forall a int :: 0 <= a && a < it1 ==> hashes[a] == txs[a].hash
 //@   ensures[c03-order] forall a int :: 0 <= a && a < len(b.Transactions) ==> sel(gA, gO + uint64(a)) == b.Transactions[a].hash
 //@   ensures[c03-header-root] len(b.Transactions) > 0 ==> b.Header.TransactionsRoot == mroot(gA, gO, uint64(len(b.Transactions)))
+
+//@ func validatePublicKey
+//@   trusted   -- type assertion on the key and (elliptic.Curve).IsOnCurve of the key's own curve (library call): reads only
+//@   modifies nothing
